@@ -31,7 +31,7 @@ def handle : Wire.Handler := fun op a => do
     -- the flat map as a Go map: unique keys, visited sorted
     let ps ← getPairs a "kv"
     let kvS : AMap Scalar := AMap.ofList (ps.map fun p => (p.1, strSc p.2))
-    let kvV : AMap Val := AMap.ofList (ps.map fun p => (p.1, strVal p.2))
+    let kvV : AMap Val := toV kvS
     let un := unflatten kvV
     let fp := fromProperties kvS
     let text ← Wire.getStr a "text"
